@@ -90,6 +90,8 @@ pub struct IG {
     pub next_flow_id: u64,
     /// last epoch each user claimed in
     pub last_claimed: BTreeMap<String, u64>,
+    /// epoch in which each user first received a position (its first weight record is for the epoch after)
+    pub first_stake_epoch: BTreeMap<String, u64>,
     /// the global-weight snapshot of the current epoch has been taken
     pub snap_taken: bool,
     /// a position was closed in the current epoch before that epoch's snapshot was taken
@@ -455,6 +457,8 @@ impl Scenario for IncScn {
                 v.push(IAct::Claim { user: us[0].clone() });
                 for (id, f) in g.flows.iter() {
                     v.push(IAct::ExpandFlow { id: *id, amount: 5000, funds: "exact".into(), by: f.creator.clone() });
+                    // an expansion much larger than the original amount: claims soon exceed what the flow was opened with
+                    v.push(IAct::ExpandFlow { id: *id, amount: 1_000_000, funds: "exact".into(), by: f.creator.clone() });
                     v.push(IAct::CloseFlow { id: *id, by: f.creator.clone() });
                 }
             }
@@ -610,6 +614,8 @@ impl Scenario for IncScn {
                                 format!("{:?}: incentive LP balance +{} user -{} but stated amount {}", a, bal(w, &h.lp, &h.incentive) - ib, ub - bal(w, &h.lp, user), amt)
                             });
                         }
+                        let e = g.epoch;
+                        g.first_stake_epoch.entry(owner.clone()).or_insert(e);
                         *g.open.entry((owner, DURS[*dur])).or_insert(0) += amt;
                     }
                     Err(e) => {
@@ -651,6 +657,8 @@ impl Scenario for IncScn {
                         // cw20: an allowance larger than stated is fine as long as exactly `stated` is pulled
                         let got = bal(w, &h.lp, &h.incentive) - ib;
                         cx.check("position.created_only_if_stated_amount_received", got == stated && stated > 0, || format!("position of {} accepted with {} received (sent/allowed {})", stated, got, sent));
+                        let e = g.epoch;
+                        g.first_stake_epoch.entry(user.clone()).or_insert(e);
                         *g.open.entry((user.clone(), dur)).or_insert(0) += stated;
                     }
                     Err(_) => {}
@@ -722,6 +730,8 @@ impl Scenario for IncScn {
                     Ok(_) => {
                         cx.count("helper:ok");
                         let got = bal(w, &h.lp, &h.incentive) - lp_before;
+                        let e = g.epoch;
+                        g.first_stake_epoch.entry(user.clone()).or_insert(e);
                         *g.open.entry((user.clone(), DURS[*dur])).or_insert(0) += got;
                         if c11 {
                             cx.check("helper.position_amount_is_lp_minted", got > 0, || "helper deposit created no position".to_string());
@@ -752,6 +762,8 @@ impl Scenario for IncScn {
                 if r.is_ok() {
                     cx.count("helper_overfunded:accepted");
                     let got = bal(w, &h.lp, &h.incentive) - lp_before;
+                    let e = g.epoch;
+                    g.first_stake_epoch.entry(user.clone()).or_insert(e);
                     *g.open.entry((user.clone(), DURS[*dur])).or_insert(0) += got;
                 } else {
                     cx.count("helper_overfunded:rejected");
@@ -795,7 +807,23 @@ impl Scenario for IncScn {
                         }
                         if c13 {
                             let quoted: u128 = quote.as_ref().map(|q| q.rewards.iter().map(|x| x.amount.u128()).sum()).unwrap_or(u128::MAX);
-                            cx.check("claim.pays_exactly_what_rewards_query_reported", paid == quoted, || format!("claim by {} paid {} but the Rewards query immediately before reported {:?}", user, paid, quote));
+                            // the clause holds "for up to 100 unclaimed epochs": a claim walks, per flow, the epochs from the one
+                            // after the last claim (or, for a first claim, from the earlier of the flow's start and the user's
+                            // first weight record) to the current one, and stops after 100 of them; the query does not stop
+                            let span: u64 = match g.last_claimed.get(user) {
+                                Some(e) => g.epoch.saturating_sub(*e),
+                                None => {
+                                    let first_weight = g.first_stake_epoch.get(user).map(|e| e + 1).unwrap_or(g.epoch);
+                                    flows_before.iter().map(|f| g.epoch.saturating_sub(f.start_epoch.min(first_weight)) + 1).max().unwrap_or(0)
+                                }
+                            };
+                            if span <= 100 {
+                                cx.count("claim:within_100_epochs");
+                                cx.check("claim.pays_exactly_what_rewards_query_reported", paid == quoted, || format!("claim by {} over {} unclaimed epochs paid {} but the Rewards query immediately before reported {:?}", user, span, paid, quote));
+                            } else {
+                                cx.count("claim:beyond_100_epochs");
+                                cx.check("claim.pays_at_most_what_rewards_query_reported", paid <= quoted, || format!("claim by {} over {} unclaimed epochs paid {} which is more than the Rewards query reported: {:?}", user, span, paid, quote));
+                            }
                             if g.claimed_in_epoch.contains(user) {
                                 cx.check("claim.second_claim_in_epoch_pays_nothing", paid == 0, || format!("second claim by {} in epoch {} paid {}", user, g.epoch, paid));
                             }
